@@ -433,14 +433,24 @@ func (b *Backend) Begun(c *smtp.Conn) (int, bool) {
 
 func (s *sess) Reset() {
 	s.b.mu.Lock()
-	defer s.b.mu.Unlock()
 	s.b.log(Call{Name: "Reset", Sess: s.id})
+	if s.b.PanicIn == "Reset" {
+		s.b.PanicIn = ""
+		s.b.mu.Unlock()
+		panic("scripted panic in Reset")
+	}
+	s.b.mu.Unlock()
 }
 
 func (s *sess) Logout() error {
 	s.b.mu.Lock()
-	defer s.b.mu.Unlock()
 	s.b.log(Call{Name: "Logout", Sess: s.id})
+	if s.b.PanicIn == "Logout" {
+		s.b.PanicIn = ""
+		s.b.mu.Unlock()
+		panic("scripted panic in Logout")
+	}
+	s.b.mu.Unlock()
 	return nil
 }
 
